@@ -657,6 +657,9 @@ def install(ex):
     install_chrono(ex)
     install_heap(ex)
     install_c03(ex)
+    install_rules(ex)
+    install_checked(ex)
+    install_chrono2(ex)
 
 
 # ------------------------------------------------------------------ chrono: dates, times, zones
@@ -1015,6 +1018,11 @@ def install_chrono(ex):
 # ------------------------------------------------------------------ heap cells, vectors, slices, iterators
 def cur(path, ref):
     """current value behind a reference (consults stores made on this path)"""
+    if isinstance(ref, RefV) and ref.entry is not None:
+        m = cur(path, ref.entry[0])
+        if isinstance(m, MapC) and ref.entry[1] in m.d:
+            return m.d[ref.entry[1]]
+        return ref.v
     if isinstance(ref, RefV):
         if ref.loc is not None and ref.loc in path.stores:
             return path.stores[ref.loc]
@@ -1221,6 +1229,17 @@ def find_loc(ref):
 
 def writeback(path, ref, newval, what):
     """store `newval` behind `ref`: into an object field (heap store) or into the caller's local (write-back)"""
+    r = ref
+    while isinstance(r, RefV):
+        if r.entry is not None:
+            owner, key = r.entry
+            m = cur(path, owner)
+            d = dict(m.d)
+            d[key] = newval
+            return writeback(path, owner, MapC(d), "BTreeMap")
+        if r.loc is not None:
+            break
+        r = r.v
     loc = find_loc(ref)
     if loc is not None:
         return path.store(loc[0], loc[1], what, newval), None
@@ -1230,12 +1249,12 @@ def writeback(path, ref, newval, what):
 
 
 def h_new_empty(ex, name, args, path, depth, caller):
-    if "String" in name:
-        yield Outcome("return", path, StrV(""))
-    elif "BTreeMap" in name:
+    if name.startswith("BTreeMap"):
         yield Outcome("return", path, MapC())
-    else:
+    elif name.startswith("Vec"):
         yield Outcome("return", path, VecV([]))
+    else:
+        yield Outcome("return", path, StrV(""))
 
 
 def str_concat(a, b):
@@ -1381,7 +1400,9 @@ def conc_key(k):
     k = deref(k)
     if isinstance(k, StrV) and k.is_concrete():
         return k.t
-    raise Unsupported("map key must be a concrete string, got %r" % (k,))
+    if isinstance(k, IntV):
+        return conc_int(k)
+    raise Unsupported("map key must be a concrete string / integer, got %r" % (k,))
 
 
 def h_mapc_contains(ex, name, args, path, depth, caller):
@@ -1419,6 +1440,55 @@ def h_mapc_insert(ex, name, args, path, depth, caller):
     d[k] = args[2]
     p2, wr = writeback(path, args[0], MapC(d), "BTreeMap")
     return ex.ret_w(p2, some(old) if old is not None else NONE, wr)
+
+
+def h_mapc_get_mut(ex, name, args, path, depth, caller):
+    m = mapc_of(path, args[0])
+    if m is None:
+        return NotImplemented
+    k = conc_key(args[1])
+    if k not in m.d:
+        return ex.ret(path, NONE)
+    return ex.ret(path, some(RefV(m.d[k], entry=(args[0], k))))
+
+
+def h_iter_position(ex, name, args, path, depth, caller):
+    it = deref(args[0])
+    if not isinstance(it, IterV):
+        return NotImplemented
+    f = closure_fn(ex, name)
+    items = it.items[it.idx:]
+
+    def go(p, i):
+        if i >= len(items):
+            yield Outcome("return", p, NONE, writes={0: IterV(it.items, len(it.items), it.enum, it.owned, it.base)})
+            return
+        el = items[i] if it.owned else RefV(items[i])
+        for o in ex.run(f, [RefV(args[1]), el], p, depth + 1):
+            if o.kind == "panic":
+                yield o
+                continue
+            c = z3.simplify(o.value) if z3.is_expr(o.value) else o.value
+            pt = o.path.add(c)
+            if ex.feasible(pt):
+                yield Outcome("return", pt, some(IntV(i, 64, False)), writes={0: IterV(it.items, it.idx + i + 1, it.enum, it.owned, it.base)})
+            pf = o.path.add(z3.Not(c))
+            if ex.feasible(pf):
+                yield from go(pf, i + 1)
+    return go(path, 0)
+
+
+def h_vec_swap_remove(ex, name, args, path, depth, caller):
+    v = vec_of(path, args[0])
+    i = conc_int(deref(args[1]))
+    items = list(v.items)
+    if i >= len(items):
+        return ex.ret_panic(path, "swap_remove index (is %d) should be < len (is %d)" % (i, len(items)), caller.name)
+    ret = items[i]
+    items[i] = items[-1]
+    items.pop()
+    p2, wr = writeback(path, args[0], VecV(items), "Vec")
+    return ex.ret_w(p2, ret, wr)
 
 
 def h_mapc_remove(ex, name, args, path, depth, caller):
@@ -1501,3 +1571,217 @@ def install_c03(ex):
     add(r"^<(TokenInfoStatus|tokinizer::TokenInfoStatus|NumberType|types::NumberType) as PartialEq>::(eq|ne)$", h_enum_eq)
     add(r"^core::num::<impl usize>::max_value$", h_usize_max)
     add(r"^(alloc::string::)?String::len$|^core::str::<impl str>::len$", h_string_len)
+
+
+# ------------------------------------------------------------------ rule application (C04 / C18)
+class RuleObjV:
+    """a `dyn RuleTrait` object of the harness: a fixed name and a symbolic decision"""
+
+    def __init__(self, name, accept, result):
+        self.name, self.accept, self.result = name, accept, result
+        self.calls = []
+
+
+def h_rule_name(ex, name, args, path, depth, caller):
+    r = deref(args[0])
+    if not isinstance(r, RuleObjV):
+        raise Unsupported("dyn RuleTrait receiver %r" % (r,))
+    yield Outcome("return", path, StrV(getattr(r.name, "term_", r.name)))
+
+
+def h_rule_call(ex, name, args, path, depth, caller):
+    r = deref(args[0])
+    if not isinstance(r, RuleObjV):
+        raise Unsupported("dyn RuleTrait receiver %r" % (r,))
+    fields = cur(path, args[2])
+    p2 = path.event(("rule_call", r.name, fields))
+    yield from fork(ex, p2, r.accept, lambda: some(r.result), NONE)
+
+
+def h_range_iter_next(ex, name, args, path, depth, caller):
+    r = deref(args[0])
+    if not (isinstance(r, StructV) and r.name == "Range"):
+        return NotImplemented
+    a, b = conc_int(r.f[0]), conc_int(r.f[1])
+    if a >= b:
+        return ex.ret_w(path, NONE, {0: r})
+    return ex.ret_w(path, some(IntV(a, 64, False)), {0: StructV("Range", [IntV(a + 1, 64, False), r.f[1]], r.path)})
+
+
+def h_slice_first_last(ex, name, args, path, depth, caller):
+    v = vec_of(path, args[0])
+    if not v.items:
+        yield Outcome("return", path, NONE)
+    else:
+        yield Outcome("return", path, some(RefV(v.items[0] if name.endswith("first") else v.items[-1])))
+
+
+def h_option_as_ref(ex, name, args, path, depth, caller):
+    for p, is_some, payload in option_cases(ex, path, cur(path, args[0])):
+        yield Outcome("return", p, some(RefV(payload)) if is_some else NONE)
+
+
+def h_mapiter_map(ex, name, args, path, depth, caller):
+    return h_iter_map(ex, name, args, path, depth, caller)
+
+
+def h_collect_map(ex, name, args, path, depth, caller):
+    it = deref(args[0])
+    if not isinstance(it, IterV):
+        return NotImplemented
+    d = {}
+    for kv in it.items[it.idx:]:
+        kv = deref(kv)
+        d[conc_key(kv.f[0])] = kv.f[1]
+    return ex.ret(path, MapC(d))
+
+
+def install_rules(ex):
+    def add(rx, fn):
+        ex.handlers.insert(0, (re.compile(rx), fn))
+
+    add(r"^<dyn RuleTrait as RuleTrait>::name$", h_rule_name)
+    add(r"^<dyn RuleTrait as RuleTrait>::call$", h_rule_call)
+    add(r"^<core::ops::Range<usize> as Iterator>::next$", h_range_iter_next)
+    add(r"^<core::ops::Range<usize> as IntoIterator>::into_iter$", h_identity_keep)
+    add(r"^core::option::Option::<.*>::as_ref$", h_option_as_ref)
+    add(r"^core::slice::<impl \[.*\]>::(first|last)$", h_slice_first_last)
+    add(r"^<alloc::collections::btree_map::Iter<.*> as Iterator>::map::<.*>$", h_mapiter_map)
+    add(r"^<core::iter::Map<alloc::collections::btree_map::Iter<.*>, .*> as Iterator>::collect::<BTreeMap<.*>>$", h_collect_map)
+    add(r"^BTreeMap::<alloc::string::String, .*>::contains_key::<.*>$", h_mapc_contains)
+    add(r"^BTreeMap::<alloc::string::String, .*>::get::<.*>$", h_mapc_get)
+    add(r"^BTreeMap::<alloc::string::String, .*>::insert$", h_mapc_insert)
+    add(r"^BTreeMap::<alloc::string::String, .*>::iter$", h_mapc_iter)
+    add(r"^BTreeMap::<.*>::get_mut::<.*>$", h_mapc_get_mut)
+    add(r"^BTreeMap::<usize, .*>::(contains_key)::<.*>$", h_mapc_contains)
+    add(r"^BTreeMap::<usize, .*>::get::<.*>$", h_mapc_get)
+    add(r"^BTreeMap::<usize, .*>::insert$", h_mapc_insert)
+    add(r"^<core::slice::Iter<.*> as Iterator>::position::<.*>$", h_iter_position)
+    add(r"^Vec::<.*>::swap_remove$", h_vec_swap_remove)
+
+
+# ------------------------------------------------------------------ checked arithmetic (Option-returning)
+def as_option(gen):
+    """turn the outcomes of a panicking model into Option outcomes: panic -> None"""
+    for o in gen:
+        if o.kind == "panic":
+            yield Outcome("return", o.path, NONE)
+        else:
+            yield Outcome("return", o.path, some(o.value))
+
+
+def h_td_try_ctor(ex, name, args, path, depth, caller):
+    unit = name.split("::")[-1][4:]
+    n = deref(args[0])
+    yield from as_option(dur_new(ex, path, n.t * UNIT_SECS[unit], caller, "TimeDelta::try_" + unit))
+
+
+def h_td_checked(ex, name, args, path, depth, caller):
+    a, b = deref(args[0]), deref(args[1])
+    sub = name.endswith("checked_sub")
+    yield from as_option(dur_new(ex, path, a.secs - b.secs if sub else a.secs + b.secs, caller, "TimeDelta checked"))
+
+
+def h_int_checked(ex, name, args, path, depth, caller):
+    a, b = deref(args[0]), deref(args[1])
+    op = name.split("::")[-1]
+    r = {"checked_mul": a.t * b.t, "checked_add": a.t + b.t, "checked_sub": a.t - b.t}[op]
+    ok = z3.And(r >= a.lo(), r <= a.hi())
+    yield from fork(ex, path, ok, lambda: some(IntV(r, a.bits, a.signed)), NONE)
+
+
+def h_option_and_then(ex, name, args, path, depth, caller):
+    """Option::and_then(f): f is a closure or a function item"""
+    f = None
+    fname = None
+    m = re.search(r"\{closure@([^}]*)\}", name)
+    if m:
+        f = closure_fn(ex, name)
+    else:
+        gm = re.search(r"and_then::<[^,]*, (.*)>$", name)
+        if gm:
+            fname = re.sub(r"^fn\([^)]*\) -> [^{]* \{(.*)\}$", r"\1", gm.group(1).strip())
+    if f is None and len(args) > 1 and isinstance(deref(args[1]), FnPtrV):
+        fname = deref(args[1]).name
+    for p, is_some, payload in option_cases(ex, path, args[0]):
+        if not is_some:
+            yield Outcome("return", p, NONE)
+            continue
+        if f is not None:
+            yield from ex.run(f, [args[1], payload], p, depth + 1)
+        elif fname:
+            yield from ex.call(fname, [payload], p, depth + 1, caller)
+        else:
+            raise Unsupported("and_then target in " + name)
+
+
+def h_ndt_checked_signed(ex, name, args, path, depth, caller):
+    a, d = deref(args[0]), deref(args[1])
+    sub = "checked_sub_signed" in name
+    if isinstance(a, DateTimeV):
+        yield from as_option(dt_checked(ex, path, a.total() - d.secs if sub else a.total() + d.secs, caller, "checked"))
+    else:
+        raise Unsupported("checked_*_signed on %r" % (a,))
+
+
+def h_ndt_from_timestamp_opt(ex, name, args, path, depth, caller):
+    secs = deref(args[0])
+    yield from as_option(dt_checked(ex, path, secs.t + EPOCH_DAYS * 86400, caller, "from_timestamp_opt"))
+
+
+def install_checked(ex):
+    def add(rx, fn):
+        ex.handlers.insert(0, (re.compile(rx), fn))
+
+    add(r"^(chrono::)?(TimeDelta|Duration)::try_(seconds|minutes|hours|days|weeks)$", h_td_try_ctor)
+    add(r"^(chrono::)?(TimeDelta|Duration)::checked_(add|sub)$", h_td_checked)
+    add(r"^core::num::<impl (i64|i32|u32|u64|usize)>::checked_(mul|add|sub)$", h_int_checked)
+    add(r"^core::option::Option::<.*>::and_then::<.*>$", h_option_and_then)
+    add(r"^(chrono::)?NaiveDateTime::checked_(add|sub)_signed$", h_ndt_checked_signed)
+    add(r"^(chrono::)?NaiveDateTime::from_timestamp_opt$", h_ndt_from_timestamp_opt)
+
+
+# ------------------------------------------------------------------ more chrono constructors
+def h_from_ymd(ex, name, args, path, depth, caller):
+    y, m, d = deref(args[0]).t, deref(args[1]).t, deref(args[2]).t
+    ok = valid_ymd(y, m, d)
+    bad = path.add(z3.Not(ok))
+    if ex.feasible(bad):
+        yield panic(bad, "invalid or out-of-range date", caller.name)
+    okp = path.add(ok)
+    if ex.feasible(okp):
+        yield Outcome("return", okp, DateV(z3.simplify(days_from_civil(y, m, d))))
+
+
+def h_date_checked_signed(ex, name, args, path, depth, caller):
+    a, d = deref(args[0]), deref(args[1])
+    sub = "checked_sub_signed" in name
+    dd = ex.tdiv(d.secs, z3.IntVal(86400))
+    days = a.days - dd if sub else a.days + dd
+    ok = z3.And(days >= CHRONO_MIN_DAYS, days <= CHRONO_MAX_DAYS)
+    yield from fork(ex, path, ok, lambda: some(DateV(z3.simplify(days))), NONE)
+
+
+def h_date_and_time(ex, name, args, path, depth, caller):
+    yield Outcome("return", path, DateTimeV(deref(args[0]).days, deref(args[1]).secs))
+
+
+def h_time_from_secs(ex, name, args, path, depth, caller):
+    secs, nano = deref(args[0]), deref(args[1])
+    ok = z3.And(secs.t >= 0, secs.t < 86400, nano.t >= 0, nano.t < 2000000000)
+    bad = path.add(z3.Not(ok))
+    if ex.feasible(bad):
+        yield panic(bad, "invalid time", caller.name)
+    okp = path.add(ok)
+    if ex.feasible(okp):
+        yield Outcome("return", okp, TimeV(secs.t))
+
+
+def install_chrono2(ex):
+    def add(rx, fn):
+        ex.handlers.insert(0, (re.compile(rx), fn))
+
+    add(r"^(chrono::)?NaiveDate::from_ymd$", h_from_ymd)
+    add(r"^(chrono::)?NaiveDate::checked_(add|sub)_signed$", h_date_checked_signed)
+    add(r"^(chrono::)?NaiveDate::and_time$", h_date_and_time)
+    add(r"^(chrono::)?NaiveTime::from_num_seconds_from_midnight$", h_time_from_secs)
